@@ -303,6 +303,8 @@ def monitors(inputs, obs):
     in_pending = False       # a set_uri happened and its stream has not started yet
     pending_acc = {}         # what TAG messages delivered since that set_uri
     atf_cb = False           # an about-to-finish callback is registered
+    src_cb = False           # a source-setup callback is registered
+    last_live = False        # live_stream flag of the last set_uri performed
     reported = {}            # accumulation of what tags_changed reported for the current stream
     prev_tags = {}
     log = []
@@ -322,8 +324,31 @@ def monitors(inputs, obs):
             new_uri = inp[1]
         elif k == "atf" and not inp[1] and atf_cb and inp[2] is not None:
             new_uri = inp[2][0]
+        if k == "uri":
+            last_live = bool(inp[3])
+        elif new_uri is not None:
+            last_live = bool(inp[2][2])
+
+        # ---- glue (theorems C06_about_to_finish_guard, C06_source_setup_commands,
+        #      C06_get_position_spec)
+        if k == "atf" and (inp[1] or not atf_cb) and (o["cmds"] or evs):
+            fail("about_to_finish_guard", {"input": "atf", "in_actor_thread": bool(inp[1])},
+                 f"about-to-finish ran although {'in the actor thread' if inp[1] else 'no callback is registered'}: {o['cmds']}")
+        if k == "src":
+            got = [c[0] + "." + c[1] for c in fold_proxy(o["cmds"])]
+            if inp[1]:
+                exp = ((["cb.source"] if src_cb else []) + (["source.live"] if last_live and inp[2] else [])
+                       + (["source.proxy3"] if inp[3] and inp[4] else []))
+                if got != exp or o["ret"][0] == "raise":
+                    fail("source_setup", {"input": "src", "clause": "commands"}, f"source-setup did {got} ({o['ret']}), expected {exp}")
+            elif o["ret"] != ("raise", "AudioException") or got:
+                fail("source_setup", {"input": "src", "clause": "no_factory"}, f"source without factory: {o['ret']} {got}")
+        if k == "pos?" and o["ret"] != ("pos", (inp[2] // 1000000) if inp[1] else 0):
+            fail("get_position", {"input": "pos?"}, f"get_position() = {o['ret']} for pipeline answer {inp[1:]}")
         if k == "atfcb":
             atf_cb = bool(inp[1])
+        if k == "srccb":
+            src_cb = bool(inp[1])
 
         # ---- T1 reports_sound
         for e in evs:
